@@ -147,7 +147,7 @@ template <typename Number> bool congruence<Number>::is_bottom() const {
 }
 
 template <typename Number> bool congruence<Number>::is_top() const {
-  return m_a == 1;
+  return !m_is_bottom && m_a == 1;
 }
 
 template <typename Number>
